@@ -1,9 +1,14 @@
 use sci_common::rt::Run;
 use std::sync::Arc;
 
+pub mod budget;
+pub mod c01;
 pub mod c02;
 pub mod c03;
+pub mod c06;
 pub mod c07;
+pub mod c08;
+pub mod fl;
 pub mod c12;
 pub mod c13;
 pub mod c14;
@@ -14,9 +19,12 @@ pub mod c19;
 
 pub fn dispatch(id: &str, run: &Arc<Run>) -> bool {
     match id {
+        "C01" => c01::run(run),
         "C02" => c02::run(run),
         "C03" => c03::run(run),
+        "C06" => c06::run(run),
         "C07" => c07::run(run),
+        "C08" => c08::run(run),
         "C12" => c12::run(run),
         "C13" => c13::run(run),
         "C14" => c14::run(run),
